@@ -59,6 +59,10 @@ def extract():
         pc = re.search(r"create_error_message\(\s*ErrorCode::(\w+)", parm)
         if not pc: raise ExtractError("spawn_off_reader: panic reply")
     f["repliesCarryRequestId"] = carries
+    # replies wait for room in the outbound queue (never `try_send`)
+    tail = clo[clo.rfind("if let Some(mut response) = response"):] if "if let Some(mut response) = response" in clo else clo
+    f["repliesWaitForQueue"] = (bool(re.search(r"return conn\.outbound_tx\.send\(response\)\.await\.is_ok\(\);", sat)) and
+                                bool(re.search(r"outbound_tx\.blocking_send\(response\)", tail)) and "try_send" not in body)
     f["panicCode"] = pc.group(1)
     for k in ("panicCode", "saturationCode"):
         if f[k] not in CODE_FIELD: raise ExtractError(f"unknown ErrorCode::{f[k]}")
@@ -107,6 +111,7 @@ def render(f):
         f"    saturationCode := codes.{CODE_FIELD[f['saturationCode']]}",
         f"    saturationDropsNotify := {b(f['saturationDropsNotify'])}",
         f"    repliesCarryRequestId := {b(f['repliesCarryRequestId'])}",
+        f"    repliesWaitForQueue := {b(f['repliesWaitForQueue'])}",
         f"    executionForwards := {b(f['executionForwards'])}",
         f"    blockingIsOffReader := {b(f['blockingIsOffReader'])} }}",
         "def capFacts : CapFacts :=",
